@@ -97,6 +97,11 @@ class Rows:
             out[i] = sorted(set(combos))
         return out
 
+    def flag_words(self, key, ev='EFirst'):
+        """[(flag enum, word index)] for every flag-list rendering (names of the bits set) of a START word"""
+        return [(m.group(1), int(m.group(2))) for m in
+                re.finditer(r'\(LAnyBit(?:OrIfZero|OrIfEmpty)? "(\w+)"(?: "\w+")? \(W %s (\d)\)\)' % ev, self.toks_text(key))]
+
     def host_enum_words(self, key):
         return {i: e for e, i, shift, mask, bits in self.enum_fields(key) if e.startswith('host:')}
 
@@ -192,11 +197,18 @@ def split_text_call(text):
     return None
 
 
-def in_domain_first(R, key, rng, base=None):
+def in_domain_first(R, key, rng, base=None, flags_in_domain=False):
     first = list(base) if base else [rng.choice(SPECIAL) for _ in range(4)]
     for i, vals in R.enum_words(key).items():
         if vals:
             first[i] = rng.choice(vals)
+    for e, i in (R.flag_words(key) if flags_in_domain else []):
+        # a flag word ranges over its flag enum: a union of declared members (possibly none)
+        members = [v for _, v in R.enums[e][0] if v > 0]
+        w = 0
+        for v in rng.sample(members, min(len(members), rng.choice([0, 1, 1, 2, 3]))):
+            w |= v
+        first[i] = w
     return first
 
 
